@@ -15,7 +15,13 @@ func init() {
 				return
 			}
 			checkResume(c, p, R)
-			runPersist(c, p, R, map[string]string{"C13.R3": "C12.R2"})
+			runPersist(c, p, R, map[string]string{"C13.R3": "C12.R2", "C09.R4": "C12.R2"})
+			c.Rule("C12.R7", "the replay filter compares stored names with the name events of type T are persisted under")
+			for _, h := range typedNameHelpers(p, R) {
+				checkTypedHelperSpec(c, p, R, "C12.R7", h)
+			}
+			checkEventTypeSpec(c, p, R, "C12.R7")
+			checkNameSinks(c, p, R, "C12.R7")
 			checkReplayStream(c, p, R, "C12.R6")
 			checkReplayPaged(c, p, R, "C12.R6")
 			if ps := c.Prog(ModSQLite); ps != nil {
